@@ -79,7 +79,7 @@ func early(run *lib.Run, st *lib.Stats, sh *lib.Shards, next func() int, rng *li
 	}
 
 	// ---- SideChainPow without inputs
-	for i := 0; i < run.N(120, 3000); i++ {
+	for i := 0; i < run.N(120, 1500); i++ {
 		var outs []outSpec
 		n := 1
 		if rng.Chance(30) {
@@ -125,7 +125,7 @@ func early(run *lib.Run, st *lib.Stats, sh *lib.Shards, next func() int, rng *li
 	// ---- CRCAppropriation: CheckTransactionOutput + the real SpecialContextCheck on given references
 	assets, expenses := *f.Params.CRConfiguration.CRAssetsProgramHash, *f.Params.CRConfiguration.CRExpensesProgramHash
 	origNeed, origAmount := f.Committee.NeedAppropriation, f.Committee.AppropriationAmount
-	for i := 0; i < run.N(400, 12000); i++ {
+	for i := 0; i < run.N(400, 5000); i++ {
 		nOut := 2
 		if rng.Chance(12) {
 			nOut = 1 + rng.Intn(3)
